@@ -75,7 +75,7 @@ def work(chunk):
     packs = []
     for y in years:
         ages = G['tab'][y]['ages']
-        packs.append(work_year((y, g, codes, [ages[0], 30, 35, 41.25, 52.5, 67.75, 70, ages[-1], ages[-1] + 5])))
+        packs.append(work_year((y, g, codes, [ages[0], 30, 35, 41.25, 41.75, 52.25, 52.5, 67.75, 70, ages[-1], ages[-1] + 5])))
     out = packs[0]
     for p in packs[1:]:
         out['n'] += p['n']; out['nontrivial'] += p['nontrivial']; out['nviol'] += p['nviol']
